@@ -71,7 +71,7 @@ var c09Probe = []byte("<?php echo <<<A\n  x\n  A;\n")
 func init() {
 	nGrid := len(c09Seg) * len(c09Seg)
 	core.Register(&core.Check{
-		ID: "C09",
+		ID:   "C09",
 		Rule: "cases = full (major,minor) grid over " + fmt.Sprint(len(c09Seg)) + " segment values incl. 0..12, 2^31, k*2^32+small, 2^63, 2^64-1 (Validate/Parse acceptance, error value, order relations against every grid version) ++ curated and PRNG version strings (version.New vs reference) ++ hostile/valid inputs parsed under every version of each class {5.0-5.6},{7.0-7.2},{7.3,7.4} and with a nil version; non-trivial = grid cell or string exercised, or input whose tree has at least 2 nodes or that delivered an error; distinct by cell / string / input bytes",
 		Assumptions: []string{
 			"reference version set {5.0..5.6, 7.0..7.4} and numeric tuple order are taken from the property text",
